@@ -83,9 +83,15 @@ def main():
                 head = open(srcf).read(400)
                 m = re.search(r"^package (\w+)", head, re.M)
                 dest_dir = None
-                hint = re.search(r"(?:cp|copy|place|put)[^\n]*?((?:[\w./-]+/)+)" + re.escape(fn), run_txt)
+                hint = re.search(r"cp\s+\S*" + re.escape(fn) + r"\s+(\S+)", run_txt)
                 if hint:
                     dest_dir = hint.group(1).replace("/tmp/seed/%s/" % pid, "").strip("/")
+                    if dest_dir.endswith(".go"):
+                        dest_dir = os.path.dirname(dest_dir)
+                if dest_dir is None:
+                    hint = re.search(r"((?:[\w.-]+/)+)" + re.escape(fn), run_txt.replace(".seed/demo/", ""))
+                    if hint:
+                        dest_dir = hint.group(1).replace("/tmp/seed/%s/" % pid, "").strip("/")
                 if dest_dir is None:
                     rel = os.path.relpath(dp, demo)
                     dest_dir = rel if rel != "." else (os.path.dirname(files[0]) if files else ".")
@@ -94,7 +100,14 @@ def main():
                 shutil.copy(srcf, os.path.join(d, fn))
                 copied.append(os.path.join(dest_dir, fn))
         res["demo_files"] = copied
-        cmd = run_txt.splitlines()[-1] if run_txt else ""
+        cmd = ""
+        for line in reversed(run_txt.splitlines()):
+            segs = [x.strip() for x in line.split("&&")]
+            gos = [x for x in segs if re.search(r"\bgo (test|run)\b", x)]
+            if gos:
+                cmd = gos[-1]
+                cmd = cmd[cmd.index("go "):] if not cmd.startswith("go ") else cmd
+                break
         cmd = cmd.replace("/tmp/seed/%s" % pid, wt)
         if cmd:
             if "-overlay" not in cmd and ("go test" in cmd or "go run" in cmd):
